@@ -2,7 +2,7 @@
 """Regression test of the machinery itself (not a check): replays every stored seeded change and every stored
 behaviour-preserving refactoring in a scratch copy of /repo and /verif under /tmp/selftest (removed at the end).
 A seed must make the check of its own property print a VIOLATION line; a refactoring must leave all twenty quiet.
-usage: ./selftest.py [--seeds-only] [--benign-only] [--only <glob of seed dir names>] [--only-benign <glob of refactoring dir names>] [--base <scratch dir>] [--log <file>]     -> build/selftest.log, exit 1 when an expectation fails"""
+usage: ./selftest.py [--seeds-only] [--benign-only] [--only <glob of seed dir names>] [--only-benign <glob of refactoring dir names>] [--props C05,C06,… (the checks run on each refactoring; default all twenty)] [--base <scratch dir>] [--log <file>]     -> build/selftest.log, exit 1 when an expectation fails"""
 import glob, json, os, shutil, subprocess, sys
 ENV = dict(os.environ, GOFLAGS="-mod=mod", GOPROXY="off", GOSUMDB="off", GOTOOLCHAIN="local")
 def sh(cmd, cwd=None, env=None):
@@ -38,7 +38,7 @@ if "--benign-only" not in sys.argv:
         print(f"SEED {name}: {'caught' if ok else 'MISSED'} {v[0][:120] if v else ''}", file=log); log.flush()
         bad += 0 if ok else 1
 if "--seeds-only" not in sys.argv:
-    props = [f"C{i:02d}" for i in range(1, 21)]
+    props = opt("--props", ",".join(f"C{i:02d}" for i in range(1, 21))).split(",")
     for d in sorted(glob.glob("/verif/benign/" + only_benign + "/")):
         name = os.path.basename(d.rstrip("/"))
         rc, out = sh(["git", "-C", repo, "apply", d + "patch.diff"])
